@@ -1036,3 +1036,43 @@ Proof.
   - apply grid_check_all, HG.
   - intros i Hi. replace (Z.of_nat 1 * e + 53)%Z with (e + 53)%Z by lia. apply HW, Hi.
 Qed.
+
+(* ---- (2g) on grid data the rolling mean is the CORRECTLY ROUNDED exact mean of the window ------------------- *)
+Lemma div_zero_not_finite (s : float) : ffin (s / zero)%float = false.
+Proof.
+  rewrite ffin_equiv, FP.div_equiv. change (FP.Prim2B zero) with (FP.Prim2B (FP.B2Prim (B754_zero false))).
+  rewrite FP.Prim2B_B2Prim. destruct (FP.Prim2B s) as [sx|sx| |sx mx ex Hx]; reflexivity.
+Qed.
+
+Theorem ts_vmean_correctly_rounded_on_grid e w mp body xs i o :
+  (-1074 <= e)%Z -> (e + 53 <= 1024)%Z -> (1 <= w)%nat -> (Z.of_nat w < 2 ^ 53)%Z ->
+  forallb (grid_check e) (fvals xs) = true ->
+  (forall j, (j < length xs)%nat -> spow 1 (rvals64 (win w j xs)) < pow2 (e + 53)) ->
+  nth_error (ts_out (ts_vmean64 w mp) body w xs) i = Some o -> ffin o = true ->
+  f2r o = rnd64 (meanR (rvals64 (win w i xs))) /\
+  Rabs (f2r o - meanR (rvals64 (win w i xs))) <= u64 * Rabs (meanR (rvals64 (win w i xs))) + eta64.
+Proof.
+  intros E1 E2 Hw Hw53 HG HW Ho Hf.
+  assert (Hv : f2r o = rnd64 (meanR (rvals64 (win w i xs)))); [|split; [exact Hv|rewrite Hv; apply rnd64_err]].
+  assert (Hi : (i < length xs)%nat).
+  { destruct (ts_run_total (ts_vmean64 w mp) w xs body Hw) as (out & Hrun & Hlen).
+    unfold ts_out in Ho. rewrite Hrun in Ho. rewrite <- Hlen. apply nth_error_Some. rewrite Ho. discriminate. }
+  destruct (nth_error xs i) as [v|] eqn:Hxi; [|apply nth_error_None in Hxi; lia].
+  assert (HW' : forall j, (j < length xs)%nat -> spow 1 (rvals64 (win w j xs)) < pow2 (Z.of_nat 1 * e + 53)).
+  { intros j Hj. replace (Z.of_nat 1 * e + 53)%Z with (e + 53)%Z by lia. apply HW, Hj. }
+  assert (E1' : (-1074 <= Z.of_nat 1 * e)%Z) by lia. assert (E2' : (Z.of_nat 1 * e + 53 <= 1024)%Z) by lia.
+  destruct (moment_accumulators_float_exact 1 e (emit_mean (mp_eff mp w 0)) w body xs ltac:(lia) E1' E2' Hw HG HW' i v Hxi)
+    as (s & Hs & Hn & Hk).
+  change (mom_feat (emit_mean (mp_eff mp w 0))) with (ts_vmean64 w mp) in Hs.
+  rewrite Hs in Ho. injection Ho as <-. destruct (Hk 1%nat ltac:(lia)) as [F1 V1]. cbn [msk] in F1, V1.
+  unfold emit_mean in *. rewrite Hn in *.
+  destruct (mp_eff mp w 0 <=? length (fvals (win w i xs))); [|vm_compute in Hf; discriminate].
+  destruct (length (fvals (win w i xs))) as [|k] eqn:EL.
+  { change (nofnat (A := float) 0) with zero in Hf. rewrite div_zero_not_finite in Hf. discriminate. }
+  assert (Hn53 : (Z.of_nat (S k) < 2 ^ 53)%Z).
+  { pose proof (length_fvals_le (win w i xs)). pose proof (win_length_le w i xs Hw). lia. }
+  destruct (div_count_val (m_s1 s) (S k) ltac:(lia) Hn53 Hf) as [_ Hq].
+  change (ndiv (m_s1 s) (nofnat (S k))) with (m_s1 s / nofnat (A := float) (S k))%float.
+  assert (Hlen : length (rvals64 (win w i xs)) = S k) by (unfold rvals64; rewrite map_length; exact EL).
+  rewrite Hq, V1, psum_1. unfold meanR, nR. rewrite Hlen. reflexivity.
+Qed.
